@@ -76,7 +76,7 @@ def st_rop(draw, extra=()):
         return {'o': 'copy'}
     if o == 'failappend':
         return {'o': 'failappend', 'items': [draw(st_item()) for _ in range(draw(st.integers(0, 3)))],
-                'kind': draw(st.sampled_from(['raise', 'badatom', 'unconv'])), 'gen': draw(st.booleans())}
+                'kind': draw(st.sampled_from(['raise', 'badatom', 'unconv', 'interrupt'])), 'gen': draw(st.booleans())}
     if o == 'fillmax':
         return {'o': 'fillmax', 'seed': draw(st.integers(0, 2 ** 31))}
     if o == 'overfill':
@@ -134,7 +134,7 @@ def st_growth_history(draw, max_ops=12):
             ops.append({'o': 'trunc', 'i': draw(st.sampled_from(GROWTH_TRUNC)), 'by': 'obj'})
         elif o == 'failappend':
             ops.append({'o': 'failappend', 'items': [draw(st_item()) for _ in range(draw(st.integers(0, 3)))],
-                        'kind': draw(st.sampled_from(['raise', 'badatom', 'unconv'])), 'gen': True})
+                        'kind': draw(st.sampled_from(['raise', 'badatom', 'unconv', 'interrupt'])), 'gen': True})
         elif o == 'ctx':
             ops.append({'o': 'ctx', 'via': draw(st.sampled_from(['open_arrays', 'iter_arrays'])),
                         'ops': [{'o': 'append', 'item': draw(st_item())} for _ in range(draw(st.integers(1, 3)))]})
@@ -676,12 +676,12 @@ class RaggedRun:
                 for x in xs:
                     yield x
                 if bad is None:
-                    raise _Boom('data source failed')
+                    raise (KeyboardInterrupt() if fk == 'interrupt' else _Boom('data source failed'))      # interrupt: Ctrl-C while the source runs
                 yield bad
             it = src() if (op.get('gen', True) or bad is None) else xs + [bad]
             try:
                 ra.iterappend(it)
-            except Exception:
+            except BaseException:
                 pass
             else:
                 self.out.viol('no-raise', tag, f'step {self.stepno}: failing iterappend did not raise')
